@@ -567,7 +567,7 @@ def install(run, model, rule="C03.install", rule_guard="C03.new-guard"):
 
 def meta_reapply(run, model, rule="C03.meta-reapply", rule_order="C16.meta-order"):
     """DBCMeta.__new__: namespace decoration < super().__new__ < add_invariant_checks (iff __invariants__)."""
-    for fi in model.methods("_metaclass", "DBCMeta"):
+    for fi in model.methods("_metaclass", "DBCMeta", live_only=(run.tier != "thorough")):
         if fi.name != "__new__":
             continue
         flow = get_flow(model, fi)
